@@ -25,7 +25,7 @@ REQUIRED_BUCKETS = ['import:plain', 'import:as', 'import:from', 'import:from-as'
                     'spelling:two-for-one-object', 'order:class-then-method', 'order:method-then-class', 'order:method-via-other-spelling-than-class',
                     'ref:created-before-method-configured', 'ref:scoped', 'obj:registered-by-decorator-under-custom-name', 'obj:decorated-variant-of-another-object', 'include:own-imports', 'include:colliding-bound-name', 'error:name-from-includer', 'error:name-from-includee',
                     'error:attribute', 'error:gin-reserved', 'error:late-enabling', 'error:aliased-enabling', 'error:unknown-feature', 'error:unknown-feature-path', 'roundtrip:same-process',
-                    'roundtrip:fresh-process', 'equally-named-modules', 'cross-parse:second-parse', 'cross-parse:include', 'cross-parse:includer', 'alias-collision:second-parse', 'alias-collision:include',
+                    'roundtrip:fresh-process', 'equally-named-modules', 'cross-parse:second-parse', 'cross-parse:include', 'cross-parse:includer', 'alias-collision:second-parse', 'alias-collision:include', 'alias-collision:sibling-plain-after-alias', 'alias-collision:sibling-plain-before-alias', 'alias-collision:same-file-rebind',
                     'alias-collision:includer']
 ORACLE_COUNTERS = ['oracle_evals', 'deliveries_compared', 'roundtrips']
 _S = {}
@@ -90,7 +90,8 @@ def iter_cases(ctx, rng, n):
   for i in range(n):
     if i % 7 == 3:
       if rng.random() < 0.35:
-        yield {'kind': 'alias-collision', 'how': rng.choice(['second-parse', 'include', 'includer']), 'alias': rng.choice(['X', 'alpha', 'mod']),
+        yield {'kind': 'alias-collision', 'how': rng.choice(['second-parse', 'include', 'includer', 'sibling-plain-after-alias', 'sibling-plain-before-alias', 'same-file-rebind']),
+               'alias': rng.choice(['X', 'alpha', 'mod']), 'plain': rng.choice(['from PK import alpha', 'import PK.alpha']),
                'form': rng.choice(['import PK.%s as %s', 'from PK import %s as %s'])}
         continue
       yield {'kind': 'cross-parse', 'how': rng.choice(['second-parse', 'include', 'includer']), 'ref_import': rng.choice(['import PK.alpha as M1', 'from PK import alpha as M1', 'import PK.alpha']),
@@ -463,11 +464,25 @@ def run_alias_collision(ctx, case):
   t1 = dyn + (case['form'] % ('alpha', al)).replace('PK', pk) + '\n%s.shared.v = 1\n%s.K.a = 2\n' % (al, al)
   t2 = dyn + (case['form'] % ('beta', al)).replace('PK', pk) + '\n%s.shared.v = 10\n%s.K.a = 20\n' % (al, al)
   ctx.bucket('alias-collision:' + case['how'])
-  ctx.fp('alias-collision', case['how'], al, case['form'])
+  ctx.fp('alias-collision', case['how'], al, case['form'], case.get('plain'))
+  if case['how'].startswith('sibling-plain'):
+    # one file calls module beta `alpha` (an alias equal to a sibling module's name), another imports the real alpha without any alias
+    plain = case.get('plain', 'from PK import alpha')
+    sel = 'alpha' if plain.startswith('from') else 'PK.alpha'
+    t1 = dyn + plain.replace('PK', pk) + ('\n%s.shared.v = 1\n%s.K.a = 2\n' % (sel, sel)).replace('PK', pk)
+    t2 = dyn + (case['form'] % ('beta', 'alpha')).replace('PK', pk) + '\nalpha.shared.v = 10\nalpha.K.a = 20\n'
+    if case['how'] == 'sibling-plain-after-alias':
+      t1, t2 = t2, t1
+  if case['how'] == 'same-file-rebind':
+    # within ONE file a later import statement re-binds the name, as in Python: selectors after it go through the later module
+    t1 = (dyn + (case['form'] % ('alpha', al)).replace('PK', pk) + '\n%s.shared.v = 1\n%s.K.a = 2\n' % (al, al) +
+          (case['form'] % ('beta', al)).replace('PK', pk) + '\n%s.shared.v = 10\n%s.K.a = 20\n' % (al, al))
+    t2 = ''
   try:
-    if case['how'] == 'second-parse':
+    if case['how'] in ('second-parse', 'sibling-plain-after-alias', 'sibling-plain-before-alias', 'same-file-rebind'):
       gin.parse_config(t1)
-      gin.parse_config(t2)
+      if t2:
+        gin.parse_config(t2)
     else:
       path = os.path.join(_S['tree'].root, pk + '_c.gin')
       inner, outer = (t2, t1) if case['how'] == 'include' else (t1, t2)
